@@ -73,6 +73,44 @@ func nearMisses(name string) []string {
 		"true", "null", "~", "unknown", "kill", "deny", "permit", "eq", "==", "Equals", "equal_to", "bits_set", "Bits Set", "notequal!", "ALLOW ALL"}
 }
 
+// byteMutants: every single-byte substitution (all 256 values at every position, which includes every
+// single-bit flip), insertion, deletion and adjacent transposition of the name in lower, upper and mixed case.
+func byteMutants(name string) []string {
+	var out []string
+	mixed := []byte(name)
+	for i := range mixed {
+		if i%2 == 0 && mixed[i] >= 'a' && mixed[i] <= 'z' {
+			mixed[i] -= 32
+		}
+	}
+	for _, base := range []string{name, strings.ToUpper(name), string(mixed)} {
+		b := []byte(base)
+		for i := range b {
+			for v := 0; v < 256; v++ {
+				if byte(v) == b[i] {
+					continue
+				}
+				m := append([]byte(nil), b...)
+				m[i] = byte(v)
+				out = append(out, string(m))
+			}
+			out = append(out, string(append(append([]byte(nil), b[:i]...), b[i+1:]...)))
+			if i+1 < len(b) && b[i] != b[i+1] {
+				m := append([]byte(nil), b...)
+				m[i], m[i+1] = m[i+1], m[i]
+				out = append(out, string(m))
+			}
+		}
+		for i := 0; i <= len(b); i++ {
+			for _, v := range []byte{0, ' ', '_', '-', 0x7f, 0x80, 0xff, 'a', 'A', '\n'} {
+				m := append(append(append([]byte(nil), b[:i]...), v), b[i:]...)
+				out = append(out, string(m))
+			}
+		}
+	}
+	return out
+}
+
 // unicodeFolds replaces letters by characters that are equal to them only
 // under Unicode case folding (Kelvin sign for k, long s for s).
 func unicodeFolds(name string) []string {
@@ -249,6 +287,10 @@ func c14() {
 			judgeAction(s)
 			judgeOp(s)
 		}
+		for _, s := range byteMutants(name) {
+			judgeAction(s)
+			run.Count("single_byte_mutants_of_documented_names", 1)
+		}
 		// printed form parses back
 		if got := v.String(); got != name {
 			run.Violation("action-string", fmt.Sprintf("Action(%#x).String()=%q, documented name is %q", uint32(v), got, name), map[string]any{"check": "C14", "value": uint32(v)})
@@ -287,6 +329,10 @@ func c14() {
 		for _, s := range append(nearMisses(name), unicodeFolds(name)...) {
 			judgeOp(s)
 			judgeAction(s)
+		}
+		for _, s := range byteMutants(name) {
+			judgeOp(s)
+			run.Count("single_byte_mutants_of_documented_names", 1)
 		}
 		var back seccomp.Operation
 		if err := back.Unpack(name); err != nil || string(back) != name {
